@@ -70,7 +70,7 @@ def main() -> int:
     args = [a for a in sys.argv[1:] if not a.startswith("--")]
     keep = "--keep" in sys.argv
     checks_only = "--checks-only" in sys.argv
-    sid, prop, src = args[0], args[1], Path(args[2])
+    sid, prop, src = args[0], args[1], Path(args[2]).resolve()
     patch = src / "patch.diff"
     demo_src = src / "demo_test.py"
     wt = tempfile.mkdtemp(prefix=f"seedeval-{sid}-", dir="/tmp")
@@ -110,12 +110,15 @@ def main() -> int:
     if keep and res.get("confirmed"):
         dst = VERIF / "seeded" / sid
         dst.mkdir(parents=True, exist_ok=True)
-        shutil.copy(patch, dst / "patch.diff")
-        shutil.copy(demo_src, dst / "demo_test.py")
-        for extra in src.glob("*.py"):
-            if extra.name != "demo_test.py":
-                shutil.copy(extra, dst / extra.name)
+        if dst.resolve() != src:
+            shutil.copy(patch, dst / "patch.diff")
+            shutil.copy(demo_src, dst / "demo_test.py")
+            for extra in src.glob("*.py"):
+                if extra.name != "demo_test.py":
+                    shutil.copy(extra, dst / extra.name)
         notes = (src / "notes.md").read_text() if (src / "notes.md").is_file() else ""
+        if not notes and (dst / "meta.json").is_file():
+            notes = json.loads((dst / "meta.json").read_text()).get("notes", "")
         meta = {
             "seed": sid,
             "property": prop,
